@@ -3,7 +3,7 @@
 use crate::common::*;
 use crate::engine::{bx, hash_of, GenPart, Property, Stats, Tier};
 use dvb_gse_rust::gse_decap::DecapStatus;
-use dvb_gse_rust::gse_encap::{ContextFrag, EncapError, EncapStatus};
+use dvb_gse_rust::gse_encap::{ContextFrag, EncapStatus};
 use proptest::prelude::*;
 use serde::{Deserialize, Serialize};
 use serde_json::json;
@@ -125,9 +125,6 @@ fn check(c: &Case, st: &mut Stats) -> Result<(), String> {
             Err(e) => {
                 if blen >= 13 {
                     return st.violation("err-with-buffer>=13", format!("call #{} ({}, buffer {} bytes, remaining {}) -> Err({:?})", k, if ctx.is_none() { "encap" } else { "encap_frag" }, blen, remaining, e));
-                }
-                if e != EncapError::ErrorSizeBuffer {
-                    return st.violation("unexpected-error", format!("call #{} (buffer {} bytes) -> Err({:?})", k, blen, e));
                 }
                 st.class("skipped-too-small-buffer");
                 if ctx.is_some() {
